@@ -134,6 +134,104 @@ def check_spec(spec, res, runner_name):
     check_graph(fam, g, log, vals, res, rep, runner_name, rng)
 
 
+def _attempt(run, g, values, log, **kw):
+    log.clear()
+    rec = Recorder()
+    out = run(g, values, event_processors=[rec], max_iterations=40, **kw)
+    return out, list(log.calls), list(rec.events)
+
+
+def fixed_cases(res, runner_name):
+    """Deterministic programs for two interactions the generated families do not contain: (a) a selected output that sits behind
+    an ORDERING-only dependency (emit / wait_for): the selection's input spec must still name what the signal's producer needs;
+    (b) two independent data cycles whose gates also list a node of the OTHER cycle as a target: every cycle needs its own
+    entry value, and one listed entry point per cycle is enough."""
+    from hypergraph import END, node, route
+    run = run_sync if runner_name == "sync" else run_async
+    log = Log()
+
+    # ---- (a) selection behind an ordering edge, the waiter declared before / after the producer
+    @node(output_name="report", emit="audit_done")
+    def audit(ledger: int) -> int:
+        log.calls.append(("audit", {"ledger": ledger}))
+        return ledger + 1
+
+    @node(output_name="payout", wait_for="audit_done")
+    def pay(amount: int) -> int:
+        log.calls.append(("pay", {"amount": amount}))
+        return amount * 2
+
+    @node(output_name="other")
+    def misc(z: int) -> int:
+        log.calls.append(("misc", {"z": z}))
+        return z
+
+    for order_name, order in (("producer-first", [audit, pay, misc]), ("waiter-first", [pay, misc, audit])):
+        g = Graph(order)
+        for cname, gc, kw in ((f"select(payout) {order_name}", g.select("payout"), {}), (f"run-time select payout {order_name}", g, {"select": "payout"})):
+            set_case("C08", {"fixed": "ordering-select", "config": cname}, runner_name)
+            rep = {"harness": "C08", "spec": {"fixed": "ordering-select"}, "runner": runner_name, "part": "fixed"}
+            req = list(effective_inputs(gc, kw).required)
+            res.case(repr(("ordering-select", cname, runner_name)), nontrivial=True, sample={"config": cname, "required": req})
+            full = {"ledger": 3, "amount": 5}
+            out, calls, events = _attempt(run, gc, {k: full.get(k, 1) for k in req}, log, **kw)
+            if out["status"] != "completed" or "payout" not in (out["values"] or {}):
+                res.fail(kind="oracle", function="compute_input_spec / _compute_active_scope", runner=runner_name, replay=rep,
+                         what=f"[{cname}] reported required inputs {req} supplied, but the selected output is not produced: {out['status']} {out['error']} values={out['values']}")
+            for miss in ("ledger", "amount"):
+                part = {k: v for k, v in full.items() if k != miss}
+                out, calls, events = _attempt(run, gc, part, log, **kw)
+                if not (out["status"] == "raised" and "MissingInputError" in (out["error"] or "")):
+                    res.fail(kind="oracle", function="compute_input_spec / validate_inputs", runner=runner_name, replay=rep,
+                             what=f"[{cname}] input '{miss}' (needed to produce the selected output through an ordering signal) omitted but the call was accepted: {out['status']} {out['error']}")
+                elif calls or events:
+                    res.fail(kind="oracle", function="run template", runner=runner_name, replay=rep, what=f"[{cname}] rejected call still ran {calls[:2]} / delivered {events[:2]}")
+
+    # ---- (b) two data cycles, hand-over targets across the cycles in the gates' target lists (never taken)
+    for cross in ("both", "first", "none"):
+        def mk(name, out, inp):
+            def f(**kw):
+                log.calls.append((name, dict(kw)))
+                return kw[inp] + 1
+            f.__name__ = name
+            import inspect
+            f.__signature__ = inspect.Signature([inspect.Parameter(inp, inspect.Parameter.POSITIONAL_OR_KEYWORD, annotation=int)])
+            return node(output_name=out)(f)
+        node_a, node_b, node_x, node_y = mk("node_a", "a", "b"), mk("node_b", "b", "a"), mk("node_x", "x", "y"), mk("node_y", "y", "x")
+
+        @route(targets=["node_a", END] + (["node_x"] if cross in ("both", "first") else []))
+        def gate_ab(a: int) -> str:
+            log.calls.append(("gate_ab", {"a": a}))
+            return END if a > 3 else "node_a"
+
+        @route(targets=["node_x", END] + (["node_a"] if cross == "both" else []))
+        def gate_xy(x: int) -> str:
+            log.calls.append(("gate_xy", {"x": x}))
+            return END if x > 3 else "node_x"
+
+        set_case("C08", {"fixed": "two-cycles", "cross": cross}, runner_name)
+        rep = {"harness": "C08", "spec": {"fixed": "two-cycles", "cross": cross}, "runner": runner_name, "part": "fixed"}
+        try:
+            g = Graph([node_a, node_b, gate_ab, node_x, node_y, gate_xy])
+        except Exception as e:  # noqa: BLE001
+            res.fail(kind="oracle", function="Graph()", what=f"two-cycle program rejected: {type(e).__name__}: {str(e)[:160]}", runner=runner_name, replay=rep)
+            continue
+        spec = g.inputs
+        res.case(repr(("two-cycles", cross, runner_name)), nontrivial=True, sample={"cross": cross, "entrypoints": {k: list(v) for k, v in spec.entrypoints.items()}})
+        for values in ({"b": 1}, {"a": 1}, {"y": 1}, {"x": 1}):
+            out, calls, events = _attempt(run, g, values, log)
+            if not (out["status"] == "raised" and "MissingInputError" in (out["error"] or "")):
+                res.fail(kind="oracle", function="_validate_cycle_entry / _group_entrypoints_by_scc", runner=runner_name, replay=rep,
+                         what=f"[two cycles, cross targets: {cross}] only one cycle seeded ({values}) but the call was accepted: {out['status']} {out['error']}")
+            elif calls or events:
+                res.fail(kind="oracle", function="run template", runner=runner_name, replay=rep, what=f"[two cycles] rejected call still ran {calls[:2]} / delivered {events[:2]}")
+        for values in ({"b": 1, "y": 1}, {"a": 1, "x": 1}, {"b": 1, "x": 1}):
+            out, calls, events = _attempt(run, g, values, log)
+            if out["status"] != "completed":
+                res.fail(kind="oracle", function="_validate_cycle_entry / _group_entrypoints_by_scc", runner=runner_name, replay=rep,
+                         what=f"[two cycles, cross targets: {cross}] one listed entry point per cycle supplied ({values}) but the run was not accepted: {out['status']} {out['error']}")
+
+
 def run(tier, seed, functions):
     n = 60 if tier == "quick" else 1200
     res = Result("C08", "graphs from the dag / nest / gated / loop families x configurations (plain, bind, select, run-time select, with_entrypoint) x each single omitted required input; "
@@ -155,10 +253,15 @@ def run(tier, seed, functions):
         for h in ("none", "roundtrip", "swap_twice", "reuse", "real"):
             v = nest.force(base, h, rng2)
             check_spec(v, res, "sync")
+    fixed_cases(res, "sync")
+    fixed_cases(res, "async")
     return res
 
 
 def replay(rep):
     res = Result("C08", "", {})
+    if rep.get("part") == "fixed":
+        fixed_cases(res, rep["runner"])
+        return [f["what"] for f in res.failures]
     check_spec(rep["spec"], res, rep["runner"])
     return [f["what"] for f in res.failures]
